@@ -676,6 +676,81 @@ def runUntrusted (j : Json) : P Json := do
 
 end UntrustedOp
 
+/-! ### macros (C18) -/
+section MacrosOp
+open Biscuit.Printer Biscuit.Params Biscuit.Codec.Src
+
+partial def dupKeysT : STerm → Bool
+  | .set xs => xs.any dupKeysT
+  | .arr xs => xs.any dupKeysT
+  | .map kvs =>
+    let ks := kvs.map fun (k, _) => (skeyJ k).compress
+    ks.eraseDups.length != ks.length || kvs.any fun (_, t) => dupKeysT t
+  | _ => false
+
+partial def dupKeysOps : List POp → Bool
+  | [] => false
+  | .val t :: k => dupKeysT t || dupKeysOps k
+  | .clo _ body :: k => dupKeysOps body || dupKeysOps k
+  | _ :: k => dupKeysOps k
+
+def dupKeysRule (r : Printer.SRule) : Bool :=
+  r.head.terms.any dupKeysT || r.body.any (fun p => p.terms.any dupKeysT) || r.exprs.any dupKeysOps
+
+def runMacros (j : Json) : P Json := do
+  let kind ← (← field j "kind").getStr?
+  let merge := match fieldOpt j "merge" with | some (.bool b) => b | _ => false
+  let item ← field j "item"
+  let mut σ : Env := []
+  let mut κ : KeyEnv := []
+  for b in ← getArr (← field j "binds") do
+    let name ← (← field b "name").getStr?
+    match fieldOpt b "value" with
+    | some v => σ := (name, ← parseSTerm v) :: σ
+    | none => κ := (name, ← (← field b "key").getStr?) :: κ
+  let sr (r : Printer.SRule) : Printer.SRule := substRule σ κ r
+  let sp (p : SPred) : SPred := substPred σ p
+  let sc (c : SCheck) : SCheck := { c with queries := c.queries.map sr }
+  let spol (c : SPolicy) : SPolicy := { c with queries := c.queries.map sr }
+  let baseBody : Printer.SRule := { head := ⟨"query", []⟩, body := [⟨"base", [.var "x"]⟩], exprs := [], scopes := [] }
+  let baseFact : SPred := ⟨"base", [.int 1]⟩
+  let dq (qs : List Printer.SRule) : Bool := qs.any dupKeysRule
+  let (text, dup) ← (match kind with
+    | "fact" => do
+      let p := sp (← parseSPred item)
+      pure (printPred p, p.terms.any dupKeysT)
+    | "rule" => do
+      let r := sr (← parseSRule item)
+      pure (printRule r, dupKeysRule r)
+    | "check" => do
+      let c := sc (← parseSCheck item)
+      pure (printCheck c, dq c.queries)
+    | "policy" => do
+      let c := spol (← parseSPolicy item)
+      pure (printPolicy c, dq c.queries)
+    | "block" | "biscuit" => do
+      let b ← parseSBlockSrc item
+      let b' : Printer.SBlock := {
+        scopes := b.scopes.map (substScope κ),
+        facts := (if merge then [baseFact] else []) ++ b.facts.map sp,
+        rules := b.rules.map sr,
+        checks := (if merge then [⟨.one, [baseBody]⟩] else []) ++ b.checks.map sc }
+      pure ((if kind == "biscuit" then "// no root key id set\n" else "") ++ printBlock b',
+        b'.facts.any (fun p => p.terms.any dupKeysT) || dq b'.rules || b'.checks.any (fun c => dq c.queries))
+    | "authorizer" => do
+      let a ← parseSAuthorizer item
+      let a' : SAuthorizer := {
+        facts := (if merge then [baseFact] else []) ++ a.facts.map sp,
+        rules := a.rules.map sr,
+        checks := a.checks.map sc,
+        policies := (if merge then [⟨.allow, [baseBody]⟩] else []) ++ a.policies.map spol }
+      pure (printAuthorizer a', a'.facts.any (fun p => p.terms.any dupKeysT) || dq a'.rules
+        || a'.checks.any (fun c => dq c.queries) || a'.policies.any (fun c => dq c.queries))
+    | other => throw s!"unknown macro kind {other}" : P (String × Bool))
+  pure (Json.mkObj [("text", text), ("dup_keys", Json.bool dup)])
+
+end MacrosOp
+
 def handle (line : String) : String :=
   match Json.parse line with
   | .error e => (Json.mkObj [("driver_error", s!"parse: {e}")]).compress
@@ -700,6 +775,7 @@ def handle (line : String) : String :=
       | "params" => runParams j
       | "keys" => runKeys j
       | "untrusted" => runUntrusted j
+      | "macros" => runMacros j
       | _ => throw s!"unknown op {op}"
     match r with
     | .ok o => o.compress
